@@ -54,6 +54,7 @@ func (j *Job) Label() string {
 }
 
 type OblResult struct {
+	Known   string // id of the known-finding predicate the model satisfies
 	ID      string
 	Status  string // proved | violated | unknown
 	Where   string
@@ -114,6 +115,8 @@ type Path struct {
 	cuts    int
 	ghost   map[string]Value
 	initPkg *ssa.Package
+	known   map[string]*term.Term // known-finding predicates registered on this path
+	fnSeen  map[*ssa.Function]int
 }
 
 func (p *Path) evalT(t *term.Term) *big.Int {
@@ -423,25 +426,37 @@ func (p *Path) assert(id string, c *term.Term, where string) {
 				okModel = false
 			}
 			ob.Model = map[string]string{}
-			for name := range p.inputs {
-				if v, ok := env[name]; ok {
-					ob.Model[name] = v.String()
-				} else if tv, ok := p.inputs[name]; ok {
-					ob.Model[name] = term.Eval(tv, env, benv, memo).String()
-				}
-			}
-			for name, v := range benv {
-				if _, ok := p.inputs[name]; ok {
-					if v {
-						ob.Model[name] = "1"
-					} else {
-						ob.Model[name] = "0"
-					}
-				}
+			for name, tv := range p.inputs {
+				ob.Model[name] = term.Eval(tv, env, benv, memo).String()
 			}
 			if !okModel {
 				ob.Status = "unknown"
 				ob.Where += " (solver model failed validation)"
+			} else if len(p.known) > 0 {
+				// is this the listed finding? then also look for a violation outside it
+				var excl []*term.Term
+				for kid, kt := range p.known {
+					if term.Eval(kt, env, benv, memo).Sign() != 0 {
+						ob.Known = kid
+					}
+					excl = append(excl, p.C.Not(kt))
+				}
+				if ob.Known != "" {
+					excl = append(excl, p.C.Not(c))
+					r2, env2, benv2 := p.check(true, excl...)
+					if r2 == term.Sat {
+						memo2 := map[int]*big.Int{}
+						ob2 := OblResult{ID: id, Where: where, Status: "violated", Model: map[string]string{}}
+						for name, tv := range p.inputs {
+							ob2.Model[name] = term.Eval(tv, env2, benv2, memo2).String()
+						}
+						p.res.mu.Lock()
+						p.res.Obls = append(p.res.Obls, ob2)
+						p.res.mu.Unlock()
+					} else if r2 == term.Unknown {
+						p.noteErr("INCONCLUSIVE: obligation " + id + " outside the known finding: solver unknown")
+					}
+				}
 			}
 		default:
 			ob.Status = "unknown"
@@ -477,6 +492,10 @@ type Exec struct {
 	initOnce      sync.Once
 	MaxPaths      int
 	NoMerge       bool
+	Seed          int
+	seenMu        sync.Mutex
+	seenFn        map[*ssa.Function]int
+	usedContracts map[string]int
 	mergeMu       sync.Mutex
 	mergeBad      map[ssa.Instruction]bool
 }
@@ -508,6 +527,7 @@ func (x *Exec) RunJobs(jobs []*Job, nworkers int) []*JobResult {
 				os.Exit(2)
 			}
 			defer sess.Close()
+			sess.Seed = x.Seed
 			for {
 				mu.Lock()
 				for len(queue) == 0 && outstanding > 0 {
@@ -558,7 +578,8 @@ func (x *Exec) RunJobs(jobs []*Job, nworkers int) []*JobResult {
 func (x *Exec) runPath(it workItem, sess *term.Session, res *JobResult, fork func(workItem)) {
 	sess.Reset()
 	p := &Path{X: x, C: term.NewCtx(), S: sess, job: it.job, res: res, trail: it.trail, fork: fork,
-		globals: map[*ssa.Global]*Object{}, inputs: map[string]*term.Term{}, ghost: map[string]Value{}}
+		globals: map[*ssa.Global]*Object{}, inputs: map[string]*term.Term{}, ghost: map[string]Value{},
+		known: map[string]*term.Term{}, fnSeen: map[*ssa.Function]int{}}
 	res.mu.Lock()
 	over := x.MaxPaths > 0 && res.Paths >= x.MaxPaths
 	res.mu.Unlock()
@@ -612,6 +633,14 @@ func (x *Exec) runPath(it workItem, sess *term.Session, res *JobResult, fork fun
 			res.Samples = append(res.Samples, p.describe())
 		}
 	}
+	x.seenMu.Lock()
+	if x.seenFn == nil {
+		x.seenFn = map[*ssa.Function]int{}
+	}
+	for f, n := range p.fnSeen {
+		x.seenFn[f] += n
+	}
+	x.seenMu.Unlock()
 	res.Steps += int64(p.steps)
 	res.Decisions += p.decisions
 	res.Merged += p.merged
@@ -661,4 +690,73 @@ func (p *Path) describe() string {
 		n++
 	}
 	return sb.String()
+}
+
+// witness records whether c is satisfiable on this path (vacuity guards and
+// separation witnesses); it does not constrain the path.
+func (p *Path) witness(id string, c *term.Term) {
+	if !p.oblActive(id) {
+		return
+	}
+	ob := OblResult{ID: id}
+	if c.IsFalse() {
+		ob.Status = "wunsat"
+	} else if p.hasModel && p.evalT(c).Sign() != 0 {
+		ob.Status = "wsat"
+	} else {
+		r, _, _ := p.check(false, c)
+		switch r {
+		case term.Sat:
+			ob.Status = "wsat"
+		case term.Unsat:
+			ob.Status = "wunsat"
+		default:
+			ob.Status = "wunknown"
+		}
+	}
+	p.res.mu.Lock()
+	p.res.Obls = append(p.res.Obls, ob)
+	p.res.mu.Unlock()
+}
+
+// FunctionsSeen lists the functions of the repository that were symbolically
+// executed, with their SSA instruction counts.
+func (x *Exec) FunctionsSeen(l *Loaded) []string {
+	x.seenMu.Lock()
+	defer x.seenMu.Unlock()
+	var out []string
+	for f, n := range x.seenFn {
+		if f.Pkg == nil || !strings.HasPrefix(f.Pkg.Pkg.Path(), DecimalPath) {
+			continue
+		}
+		if strings.HasPrefix(f.Name(), "v") && len(f.Name()) > 1 && f.Name()[1] >= 'A' && f.Name()[1] <= 'Z' {
+			continue
+		}
+		ni := 0
+		for _, b := range f.Blocks {
+			ni += len(b.Instrs)
+		}
+		out = append(out, fmt.Sprintf("%s (%d SSA instrs, %d calls)", f.String(), ni, n))
+	}
+	sort.Strings(out)
+	return out
+}
+
+func (x *Exec) ContractsUsed() map[string]int {
+	x.seenMu.Lock()
+	defer x.seenMu.Unlock()
+	r := map[string]int{}
+	for k, v := range x.usedContracts {
+		r[k] = v
+	}
+	return r
+}
+
+func (x *Exec) noteContract(name string) {
+	x.seenMu.Lock()
+	if x.usedContracts == nil {
+		x.usedContracts = map[string]int{}
+	}
+	x.usedContracts[name]++
+	x.seenMu.Unlock()
 }
